@@ -432,6 +432,15 @@ def register(R):
             bh = st1.obj(body)
             start, size = bh.fields['_start_byte'], bh.fields['_size']
             chunk = outer1['chunksize']
+            # C09: every part body reports through its OWN aggregator (the bodies are read concurrently by different
+            # request threads and AggregatedProgressCallback is not thread-safe: a shared one double-counts or loses bytes)
+            cbs = bh.fields.get('_callbacks')
+            cbs = cbs.val if isinstance(cbs, Opt) else cbs
+            citems = st1.obj(cbs).items if isinstance(cbs, Ref) and st1.obj(cbs).kind == 'list' else None
+            aggs = [x for x in (citems or []) if isinstance(x, Ref) and st1.obj(x).kind == 'obj' and st1.obj(x).cls.name == 'AggregatedProgressCallback']
+            out['part_body_has_its_own_progress_aggregator'] = (B(
+                citems is not None and all(isinstance(x, Ref) for x in citems) and len(aggs) == len(citems)
+                and all(a.oid not in st0.heap for a in aggs)), ['C09'])
             if kind == 'filename':
                 total = size_val(st1, outer1['transfer_future'])
                 rdr = reader_of(st1, evs, bh.fields['_fileobj'])
@@ -609,7 +618,7 @@ def register(R):
     cmu.checks = multi_checks
     cmu.param_alternatives = MGR_ALTS
     cmu.raises = {'Exception': lambda c: {}}
-    cmu.props = ('C01', 'C04', 'C05', 'C10', 'C11', 'C14', 'C15')
+    cmu.props = ('C01', 'C04', 'C05', 'C09', 'C10', 'C11', 'C14', 'C15')
 
     def multi_setup(eng, st, args, self_val):
         ns_setup(eng, st, args, self_val)
